@@ -407,6 +407,12 @@ class SymEval:
             return base + (int(idx.const_value()),)
         if k == 'UnaryOperator' and n.get('op') == '*':
             return self.lvalue(fr, n['ch'][0])
+        if k == 'CXXOperatorCallExpr' and (n.get('callee') or {}).get('name') == 'operator[]' and len(n.get('args', [])) == 2:
+            base = self.lvalue(fr, n['args'][0])        # element of a std::vector / std::array
+            idx = self.ev(fr, n['args'][1])
+            if not isinstance(idx, Poly) or not idx.is_const() or idx.const_value().denominator != 1:
+                raise Unsupported('container index not constant at %s' % f.loc(nid))
+            return base + ('vec', int(idx.const_value()))
         if k == 'CXXThisExpr':
             return fr.thiskey
         raise Unsupported('lvalue %s at %s' % (k, f.loc(nid)))
@@ -739,6 +745,11 @@ class SymEval:
         off = 1 if (n.get('ckind') == 'operator' and ce.get('method')) else 0
         if q in self.summaries:
             return self.summaries[q](self, fr, n, args[off:])
+        if n['k'] == 'CXXOperatorCallExpr' and name == 'operator[]' and len(args) == 2 and not ce.get('inrepo'):
+            try:
+                return self.read(self.lvalue(fr, nid))
+            except Unsupported:
+                pass
         if not ce.get('inrepo'):
             if name == 'remainder' and len(args) == 2:
                 z, p = self.ev(fr, args[0]), self.ev(fr, args[1])
